@@ -39,6 +39,7 @@ def dns_name(ctx):
             return len(self.data) - self.parsed_length
 
         def parse_string(self, name, item_size, encoding='ascii', *a, **k):
+            codecs_used['parse'].add(encoding)
             have = len(self.data) - self.parsed_length
             if have < item_size:
                 raise NotEnoughData(item_size - have)
@@ -63,6 +64,7 @@ def dns_name(ctx):
             self.out = bytearray()
 
         def compose_string(self, value, encoding='ascii', item_size=1, *a, **k):
+            codecs_used['compose'].add(encoding)
             raw = value.encode('ascii')
             self.out += len(raw).to_bytes(item_size, 'big') + raw
 
@@ -78,6 +80,7 @@ def dns_name(ctx):
 
         composed = composed_bytes
     made = {}
+    codecs_used = {'parse': set(), 'compose': set()}
 
     def extra(n, ev):
         d = ast.unparse(n.func)
@@ -127,8 +130,130 @@ def dns_name(ctx):
     except Unsupported as e:
         out['why'] = str(e)
         return out
+    for side in ('parse', 'compose'):
+        # labels are host name labels: both sides convert between text and octets with the IDNA codec (A-labels on the wire)
+        if codecs_used[side] != {'idna'}:
+            out['problems'].setdefault(side, 'labels are converted with the codec %s, host name labels are IDNA encoded' % sorted(codecs_used[side]))
     out['evaluated'] = True
     return out
 
 
 EVALUATED_CODECS = {'DnsNameUncompressed': dns_name}
+
+
+def _binary_env(ctx, cls, made):
+    """hook / names for evaluating a binary parser or composer method of ``cls``: ParserBinary / ComposerBinary objects are
+    the models of sa.props.c11 (only the word level primitives are modelled, every other method is the repository's own,
+    evaluated on the model), ``cls(...)`` / ``ClassName(...)`` record the constructed object in ``made``"""
+    from .miniexec import Unsupported, class_call_hook, exception_values
+    from .props import c11
+    m = c11._binary_models()
+    m['Composer']._repo_class = ctx.model.cls('ComposerBinary')
+    m['Parser']._repo_class = ctx.model.cls('ParserBinary')
+    exc = exception_values('NotEnoughData', 'InvalidValue', 'InvalidType', 'TooMuchData')
+
+    def names(nm):
+        if nm.startswith('ByteOrder.') and nm.split('.')[1] in m['orders']:
+            return m['orders'][nm.split('.')[1]]
+        if nm == 'int':
+            return int
+        if nm == 'cls':
+            return 'cls'
+        raise Unsupported('free name ' + nm)
+
+    def extra(n, ev):
+        d = ast.unparse(n.func)
+        if d in ('ComposerBinary', 'ParserBinary'):
+            args = [ev.ev(a) for a in n.args]
+            kw = {k.arg: ev.ev(k.value) for k in n.keywords}
+            if d == 'ComposerBinary':
+                return m['Composer'](kw.get('byte_order', args[0] if args else None))
+            return m['Parser'](args[0], kw.get('byte_order', args[1] if len(args) > 1 else None))
+        if d in ('cls', cls.name):
+            rec = {k.arg: ev.ev(k.value) for k in n.keywords if k.arg}
+            for k in n.keywords:
+                if k.arg is None:
+                    rec.update(dict(ev.ev(k.value)))
+            fields = [fl.name for fl in cls.attrs_fields()] if cls.has_attrs() else []
+            for i, a in enumerate(n.args):
+                rec[fields[i] if i < len(fields) else 'arg%d' % i] = ev.ev(a)
+            made['object'] = rec
+            return ('object', cls.name)
+        return exc(n, ev)
+    hook = class_call_hook(cls, extra, ctx.model)
+    return hook, names, m
+
+
+def mysql_record(ctx):
+    """MySQLRecord (MySQL protocol basic packet: int<3> payload length little endian, int<1> sequence id, payload):
+    compose(sequence id, payload) must be exactly that for payloads of 0, 1, 5, 255, 256 and 70000 bytes and sequence ids 0,
+    1, 255; _parse of those bytes (alone and followed by the next packet) must give the fields back and report 4 + payload
+    length; every proper prefix must raise NotEnoughData with the number of missing bytes"""
+    if 'mysql' in _CACHE:
+        return _CACHE['mysql']
+    from .miniexec import Evaluator, ExcVal, Native, Obj, Raised, Unsupported
+    out = {'evaluated': False, 'why': '', 'runs': 0, 'problems': {}}
+    _CACHE['mysql'] = out
+    c = ctx.model.try_cls('MySQLRecord')
+    fp = c.methods.get('_parse') if c is not None else None
+    fc = c.methods.get('compose') if c is not None else None
+    if fp is None or fc is None:
+        out['why'] = 'MySQLRecord._parse / compose not found'
+        return out
+    made = {}
+    hook, names, m = _binary_env(ctx, c, made)
+
+    class Record(Native):
+        _repo_class = c
+
+        def __init__(self, number, payload):
+            self.packet_number, self.packet_bytes = number, payload
+    try:
+        for size in (0, 1, 5, 255, 256, 70000):
+            for number in (0, 1, 255):
+                payload = bytes((i * 7 + 3) & 0xff for i in range(min(size, 300))) + b'\x5a' * max(0, size - 300)
+                wire = size.to_bytes(3, 'little') + bytes([number]) + payload
+                out['runs'] += 1
+                try:
+                    got = Evaluator({'self': Record(number, bytearray(payload))}, hook, names).function(fc.node)
+                    if bytes(got) != wire:
+                        out['problems'].setdefault('compose', 'a packet with sequence id %d and %d payload bytes is composed with the header %s, the protocol gives %s' % (
+                            number, size, bytes(got)[:4].hex(), wire[:4].hex()))
+                except Raised as e:
+                    out['problems'].setdefault('compose', 'composing a packet of %d payload bytes raises %s' % (size, e.what[:60]))
+                for tail in (b'', b'\x01\x00\x00\x01\xff'):
+                    out['runs'] += 1
+                    made.clear()
+                    try:
+                        got = Evaluator({'cls': 'cls', 'parsable': bytearray(wire + tail)}, hook, names).function(fp.node)
+                        rec = made.get('object', {})
+                        if not (isinstance(got, tuple) and len(got) == 2 and got[1] == len(wire)):
+                            out['problems'].setdefault('parse', 'a packet of %d bytes%s is reported as %r bytes long' % (
+                                len(wire), ' followed by another packet' if tail else '', got[1] if isinstance(got, tuple) and len(got) == 2 else got))
+                        elif rec.get('packet_number') != number or bytes(rec.get('packet_bytes', b'')) != payload:
+                            out['problems'].setdefault('parse', 'sequence id %d / %d payload bytes parse to sequence id %r / %d payload bytes' % (
+                                number, size, rec.get('packet_number'), len(rec.get('packet_bytes', b''))))
+                    except Raised as e:
+                        out['problems'].setdefault('parse', 'parsing a packet of %d payload bytes raises %s' % (size, e.what[:60]))
+                cuts = range(0, len(wire)) if size <= 5 else sorted({0, 1, 3, 4, 5, len(wire) // 2, len(wire) - 1})
+                for cut in cuts:
+                    out['runs'] += 1
+                    try:
+                        got = Evaluator({'cls': 'cls', 'parsable': bytearray(wire[:cut])}, hook, names).function(fp.node)
+                        out['problems'].setdefault('parse', 'the first %d of %d bytes of a packet are accepted' % (cut, len(wire)))
+                    except Raised as e:
+                        v = e.value
+                        n = (v.args[0] if v.args else v.kwargs.get('bytes_needed')) if isinstance(v, ExcVal) else None
+                        want = (4 - cut) if cut < 4 else (len(wire) - cut)
+                        if 'NotEnoughData' not in e.what:
+                            out['problems'].setdefault('parse', 'a truncated packet raises %s' % e.what[:60])
+                        elif n != want:
+                            out['problems'].setdefault('parse', '%d of %d bytes present: NotEnoughData carries %r, %d bytes are missing' % (cut, len(wire), n, want))
+    except Unsupported as e:
+        out['why'] = str(e)
+        return out
+    out['evaluated'] = True
+    return out
+
+
+EVALUATED_CODECS['MySQLRecord'] = mysql_record
